@@ -22,6 +22,8 @@ def replay_failure(crate, gen_fn, target, hfile, harness, stubbing=False):
                                     total_timeout=3600, stubbing=stubbing,
                                     log=os.path.join(C.BUILD, "logs", "playback_%s.log" % harness))
     tests = K.playback_tests(raw)
+    # `--harness` matches by substring: keep only the playback of exactly this harness
+    tests = [t for t in tests if re.fullmatch(r"kani_concrete_playback_%s_\d+" % re.escape(harness), t[0])] or tests
     if not tests:
         return None, "", "Kani produced no concrete playback for %s" % harness
     d = os.path.join(C.REPLAY, crate)
